@@ -175,11 +175,16 @@ fn main() {
             "P" => {
                 if !loaded {
                     "parse notable".to_string()
-                } else if f[1] == "LR" && tab().conflicts > 0 {
+                } else if f[1].starts_with("LR") && tab().conflicts > 0 {
                     // the compiler rejects such a table in LR mode; never driven
                     "parse skipped-conflicts".to_string()
                 } else {
-                    let glr = f[1] == "GLR";
+                    let glr = f[1].starts_with("GLR");
+                    // optional custom lexer: LR@<mode>,<seed>
+                    let custom: Option<(usize, usize)> = f[1].split_once('@').map(|(_, ms)| {
+                        let (m, sd) = ms.split_once(',').unwrap();
+                        (m.parse().unwrap(), sd.parse().unwrap())
+                    });
                     let partial = f[2] == "1";
                     let max_trees: usize = f[3].parse().unwrap();
                     let input = unhex(f[4]);
@@ -189,6 +194,8 @@ fn main() {
                         move || {
                             if glr {
                                 run::run_glr(input, partial, max_trees)
+                            } else if let Some((m, sd)) = custom {
+                                run::run_lr_custom(input, partial, m, sd)
                             } else {
                                 run::run_lr(input, partial)
                             }
